@@ -218,7 +218,19 @@ func evalC11(c c11Case, o *Obs) error {
 			if i%2 == 1 || c.Salt%3 == 0 {
 				// a hash that is not in the block but agrees with one of its transactions in all bytes but one
 				h = chainhash.Hash(leaves[(i*7+c.Salt)%c.N])
-				h[[]int{31, 8, 0, 16, 7, 24}[(c.Salt+i)%6]] ^= 0x40
+				switch (c.Salt + i) % 9 {
+				case 6: // differences that cancel under a sloppy comparison: top bit of two words
+					h[3] ^= 0x80
+					h[19] ^= 0x80
+				case 7: // one word up, another down
+					h[4] += 3
+					h[12] -= 3
+				case 8: // the same value into two words
+					h[8] ^= 0x21
+					h[28] ^= 0x21
+				default:
+					h[[]int{31, 8, 0, 16, 7, 24}[(c.Salt+i)%6]] ^= 0x40
+				}
 			}
 			set = append(set, &h)
 		}
